@@ -14,14 +14,14 @@ from . import arrayhist as AH
 from . import raggedhist as RH
 from .arrayhist import Viol
 
-NUMTYPE_BAD = ['Int32', 'INT8', 'int33', 'float', 'float128', 'complex32', 'bool', 'str', '', 'int 32', 'uint', '<i4',
+NUMTYPE_BAD = ['Int32', 'INT8', 'int33', 'float', 'int', 'f8', 'i8', '<f8', 'double', 'd', 'i4', 'f4', 'u1', 'single', 'float128', 'complex32', 'bool', 'str', '', 'int 32', 'uint', '<i4',
                5, None, ['int32'], True, {'t': 'int8'}, 1.5]
 BYTEORDER_BAD = ['Little', 'BIG', 'litle', 'le', '<', '>', 'native', '=', '', 'little ', 0, None, ['little'], True]
 ARRAYORDER_BAD = ['c', 'f', 'K', 'A', 'CF', '', 'C ', 'row', 0, None, ['C'], True]
 SHAPE_BAD = ['scalar', 'string', 'floats', 'float_first', 'negative', 'neg_all', 'nested', 'null', 'dict', 'str_items', 'none_item']
 KEYS_ARRAY = ['numtype', 'byteorder', 'shape', 'arrayorder', 'darrversion']
 NOTJSON = ['', '{', '{"numtype": "int32", ', 'not json at all', '\x00\x01\x02', "{'numtype': 'int32'}", '{"a": 1} trailing']
-NOTDICT = ['[]', '[1, 2]', '"a string"', '5', 'null', 'true', '[{"numtype": "int8"}]']
+NOTDICT = ['[]', '[1, 2]', '"a string"', '5', 'null', 'true', '[{"numtype": "int8"}]', '<pairs>', '<pairs>']
 
 
 def gen_corruption(rng, ragged):
@@ -69,8 +69,12 @@ def apply_corruption(root, c):
         os.unlink(jp)
         return what
     if what in ('descr_notjson', 'descr_notdict'):
+        text = c['text']
+        if text == '<pairs>':      # the same content as a JSON list of [key, value] pairs: not a dictionary
+            with open(jp) as f:
+                text = json.dumps([[k, v] for k, v in json.load(f).items()])
         with open(jp, 'w') as f:
-            f.write(c['text'])
+            f.write(text)
         return what
     with open(jp) as f:
         desc = json.load(f)
